@@ -933,6 +933,6 @@ HARNESSES = [
     HarnessSpec('step', h_step, _p_step, signature=_sig, concrete=vmstep.concrete_observables, witness_every=5,
                 replay=pinned_replay('step', 'checks.c06', vmstep.concrete_observables)),
     HarnessSpec('float', h_float, _p_float, signature=_sig, replay=pinned_replay('float', 'checks.c06')),
-    HarnessSpec('control', h_control, _p_control, replay=auto_replay(h_control), signature=_sig),
-    HarnessSpec('dispatch', h_dispatch, _p_dispatch, replay=auto_replay(h_dispatch), signature=_sig),
+    HarnessSpec('control', h_control, _p_control, replay=auto_replay(h_control), signature=_sig, witness_replay=True, witness_every=2),
+    HarnessSpec('dispatch', h_dispatch, _p_dispatch, replay=auto_replay(h_dispatch), signature=_sig, witness_replay=True, witness_every=4),
 ]
